@@ -35,6 +35,15 @@ pub const DOC_LINES: &[&str] = &[
     " /* nested opener",
     " @deprecated use `Other`",
 ];
+/// block comments (`/** .. */` or one multi-line `#[doc = ".."]`) are copied verbatim: their
+/// lines start in column 0
+pub const RAW_BLOCK_DOCS: &[&str] = &[
+    "\n * block doc\n * second line\n ",
+    " first line\nexport type Foo gone\n last ",
+    " first\nexport type A = number;\nexport type Zed<T> = T;\n",
+    "\nimport type { Q } from \"./q\";\nexport type Bar\n",
+    " see src/**\\/x\n   indented\n\texport type B\n",
+];
 pub const BODIES: &[&str] = &[
     "number",
     "{ a: number, b: string, }",
@@ -113,7 +122,9 @@ pub fn signature(texts: &[String]) -> &'static str {
         if decl.trim_end_matches('\n').contains("\n\n") {
             return "blank-line-in-declaration";
         }
-        if decl.matches("export type ").count() > 1 {
+        // the words `export type ` *after* the start of the real declaration (a field doc)
+        let after_doc = if decl.starts_with("/**") { decl.split_once("*/").map_or(decl, |x| x.1) } else { decl };
+        if after_doc.trim_start().matches("export type ").count() > 1 {
             return "export-type-in-field-doc";
         }
     }
